@@ -256,7 +256,7 @@ def be_cases(tier, rmw_only=False):
     """forced big-endian configuration: the read-modify-write path is lock; read; op; write; unlock"""
     cs = []
     kinds = [('add', 0), ('xchg', 0), ('cas', 0), ('sub', 0)] if tier == 'quick' else [('add', 0), ('add', 1), ('sub', 0), ('and', 0), ('or', 0), ('xor', 0), ('xchg', 0), ('cas', 0), ('cas', 1), ('cas', 2)]
-    for w in ((0, 5) if tier == 'quick' else range(7)):
+    for w in ((0, 5, 2) if tier == 'quick' else range(7)):      # a 32-bit, a narrow 64-bit-typed and an 8-bit flavour
         for (k1, v1), (k2, v2) in itertools.combinations_with_replacement(kinds, 2):
             cs.append(('be 2x1 rmw', [opw(k1, w, variant=v1, be=True)], [opw(k2, w, variant=v2, be=True)]))
     if rmw_only:
